@@ -58,7 +58,8 @@ def plan_job(kind, i, rnd):
     if kind == "large":
         return {"do": "ok", "ret": big}, kw, {"success": True, "data": enc(big), "exception": None}, 1
     if kind == "exc":
-        return {"do": "raise", "exc": "KeyError", "msg": bad}, kw, {"success": False, "data": repr(bad), "exception": "KeyError"}, 1
+        et = rnd.choice(["KeyError", "KeyError", "EmptyErrors", "QuietError"])  # (the last two: exception instances that are falsy)
+        return {"do": "raise", "exc": et, "msg": bad}, kw, {"success": False, "data": repr(bad) if et == "KeyError" else bad, "exception": et}, 1
     if kind == "timeout":
         return {"do": "ok", "d": 3.0}, kw, {"success": False, "data": "", "exception": "TimeoutError"}, 1
     if kind == "chain2":
